@@ -3,6 +3,8 @@ import Mainchain.Lemmas.PaginateRev
 import Mainchain.Lemmas.EntBook
 import Mainchain.Model.Script
 import Mainchain.Props.C18
+import Mainchain.Lemmas.RegistryReach
+import Mainchain.Lemmas.StreamReach
 /-
 C20 — List queries are complete, duplicate-free, consistent with point queries.
 
@@ -116,6 +118,189 @@ theorem c20_purchase_orders_walk (g : GenCfg) (s : State) (hr : FineReach g EntQ
   rw [List.filter_map, List.map_map]
   simp only [List.filter_map, List.map_map]
   exact List.Perm.refl _
+
+/-! ### the WRKChain and BEACON lists -/
+
+theorem regStore_keys (r : RegState) (hi : RegInv r) (hq : r.nextId < two64) :
+    ((r.regs.map (fun x => (u64be x.1, x.2))).map (·.1)).Nodup ∧
+    ∀ x ∈ r.regs.map (fun x => (u64be x.1, x.2)), x.1 ≠ [] := by
+  constructor
+  · have hnd : (r.regs.map (·.1)).Nodup := hi.nodupRegs
+    have : ((r.regs.map (fun x => (u64be x.1, x.2))).map (·.1)) = (r.regs.map (·.1)).map u64be := by
+      rw [List.map_map, List.map_map]; rfl
+    rw [this]
+    have hlt : ∀ a ∈ r.regs.map (·.1), a < 18446744073709551616 := by
+      intro a ha
+      obtain ⟨m, hm⟩ := find_some_of_mem r.regs a ha
+      have h1 := (hi.idsBelowNext a m hm).2
+      unfold two64 at hq; omega
+    unfold List.Nodup at hnd ⊢
+    rw [List.pairwise_map]
+    refine List.Pairwise.imp_of_mem ?_ hnd
+    intro a b ha hb hab heq
+    exact hab (C18.c18_u64be_inj a b (hlt a ha) (hlt b hb) heq)
+  · intro x hx
+    obtain ⟨y, _, rfl⟩ := List.mem_map.mp hx
+    simp [u64be]
+
+/-- the filter of `WrkChainsFiltered` / `BeaconsFiltered` -/
+def regHit (moniker : String) (owner : AddrTok) : Bytes → RegMeta → Bool := fun _ m =>
+  (decide (owner = .empty) || decide (m.owner = owner)) && (moniker.isEmpty || decide (m.moniker = moniker))
+
+/-- with no owner filter, or one that decodes, the list query is `FilteredPaginate` with `regHit` -/
+theorem regList_eq (r : RegState) (moniker : String) (owner : AddrTok) (ho : owner = .empty ∨ owner.decode.isSome = true)
+    (req : Req) : Query.regList r moniker owner req = filtered (Query.regStore r) req (fun k v => some (regHit moniker owner k v)) := by
+  unfold Query.regList regHit
+  congr 1
+  funext _ m
+  rcases ho with ho | ho
+  · simp [ho]
+  · have : ¬ (owner ≠ .empty ∧ owner.decode.isNone = true) := by
+      intro hc; rw [Option.isNone_iff_eq_none] at hc; rw [hc.2] at ho; simp at ho
+    rw [if_neg this]
+
+/-- **WRKChains and BEACONs.**  Paging through `WrkChainsFiltered` / `BeaconsFiltered` by key with any moniker /
+owner filter and any limit returns every registration that matches exactly once, in ascending id order, and
+nothing else — in every state of every run. -/
+theorem c20_registrations_walk (r : RegState) (hi : RegInv r) (hq : r.nextId < two64)
+    (moniker : String) (owner : AddrTok) (L : Nat) (hL : 1 ≤ L) (hL' : L < two64) :
+    ∃ pages, walkKeys (Query.regStore r) (fun k v => some (regHit moniker owner k v)) L ((Query.regStore r).length + 2) [] = some pages ∧
+      pages.Perm ((r.regs.map (·.2)).filter (fun m => regHit moniker owner [] m)) := by
+  obtain ⟨h1, h2⟩ := regStore_keys r hi hq
+  obtain ⟨pages, hw, _, hp⟩ := c20_pages_partition_by_key _ h1 h2 (regHit moniker owner) L hL hL'
+  refine ⟨pages, hw, hp.trans ?_⟩
+  simp only [List.filter_map, List.map_map]
+  exact List.Perm.refl _
+
+theorem c20_wrkchains_walk (g : GenCfg) (hg : GenRegValid g) (s : State) (hr : FineReach g WrkQ s) (hq : WrkQ s)
+    (moniker : String) (owner : AddrTok) (L : Nat) (hL : 1 ≤ L) (hL' : L < two64) :
+    ∃ pages, walkKeys (Query.regStore s.wrk) (fun k v => some (regHit moniker owner k v)) L ((Query.regStore s.wrk).length + 2) [] = some pages ∧
+      pages.Perm ((s.wrk.regs.map (·.2)).filter (fun m => regHit moniker owner [] m)) :=
+  c20_registrations_walk s.wrk (wrkInv_reachable g hg s hr).reg (by unfold WrkQ RegBounded at hq; omega) moniker owner L hL hL'
+
+theorem c20_beacons_walk (g : GenCfg) (hg : GenRegValid g) (s : State) (hr : FineReach g BcnQ s) (hq : BcnQ s)
+    (moniker : String) (owner : AddrTok) (L : Nat) (hL : 1 ≤ L) (hL' : L < two64) :
+    ∃ pages, walkKeys (Query.regStore s.bcn) (fun k v => some (regHit moniker owner k v)) L ((Query.regStore s.bcn).length + 2) [] = some pages ∧
+      pages.Perm ((s.bcn.regs.map (·.2)).filter (fun m => regHit moniker owner [] m)) :=
+  c20_registrations_walk s.bcn (bcnInv_reachable g hg s hr).reg (by unfold BcnQ RegBounded at hq; omega) moniker owner L hL hL'
+
+/-! ### the stream lists -/
+
+/-- what the lists need from the address bytes: every address is 1 … 255 bytes long (the SDK's limit, enforced by
+`address.LengthPrefix`) and different addresses have different bytes.  Addresses of different lengths are allowed. -/
+def AddrTableOK (tbl : List (Addr × Bytes)) (st : StreamState) : Prop :=
+  (∀ x ∈ st.streams, (0 < (Query.addrBytes tbl x.1.1).length ∧ (Query.addrBytes tbl x.1.1).length ≤ 255) ∧
+    (0 < (Query.addrBytes tbl x.1.2).length ∧ (Query.addrBytes tbl x.1.2).length ≤ 255)) ∧
+  ∀ x ∈ st.streams, ∀ y ∈ st.streams,
+    (Query.addrBytes tbl x.1.1 = Query.addrBytes tbl y.1.1 → x.1.1 = y.1.1) ∧
+    (Query.addrBytes tbl x.1.2 = Query.addrBytes tbl y.1.2 → x.1.2 = y.1.2)
+
+theorem lp_inj (a b : Bytes) (h : Query.lp a = Query.lp b) : a = b := by
+  unfold Query.lp at h; exact (List.cons.inj h).2
+
+theorem lp_pair_inj (a b a' b' : Bytes) (h : Query.lp a ++ Query.lp b = Query.lp a' ++ Query.lp b') : a = a' ∧ b = b' := by
+  unfold Query.lp at h
+  simp only [List.cons_append] at h
+  obtain ⟨hl, ht⟩ := List.cons.inj h
+  obtain ⟨h1, h2⟩ := List.append_inj ht hl
+  exact ⟨h1, (List.cons.inj h2).2⟩
+
+theorem streamStore_keys (tbl : List (Addr × Bytes)) (st : StreamState) (ht : AddrTableOK tbl st) (hn : NoDupKeys st.streams) :
+    ((st.streams.map (fun x => (Query.lp (Query.addrBytes tbl x.1.1) ++ Query.lp (Query.addrBytes tbl x.1.2), x))).map (·.1)).Nodup ∧
+    ∀ x ∈ st.streams.map (fun x => (Query.lp (Query.addrBytes tbl x.1.1) ++ Query.lp (Query.addrBytes tbl x.1.2), x)), x.1 ≠ [] := by
+  constructor
+  · rw [List.map_map]
+    have hnd : (st.streams.map (·.1)).Nodup := hn
+    unfold List.Nodup at hnd ⊢
+    rw [List.pairwise_map] at hnd ⊢
+    refine List.Pairwise.imp_of_mem ?_ hnd
+    intro a b ha hb hab heq
+    obtain ⟨h1, h2⟩ := lp_pair_inj _ _ _ _ heq
+    exact hab (Prod.ext ((ht.2 a ha b hb).1 h1) ((ht.2 a ha b hb).2 h2))
+  · intro x hx
+    obtain ⟨y, _, rfl⟩ := List.mem_map.mp hx
+    simp [Query.lp]
+
+/-- **Streams, and streams by sender.**  Paging through `Streams` (filter: all) or `AllStreamsForSender` (filter:
+that sender) by key with any limit returns every matching stream exactly once and nothing else — whatever the
+byte lengths of the addresses involved. -/
+theorem c20_streams_walk (tbl : List (Addr × Bytes)) (st : StreamState) (ht : AddrTableOK tbl st) (hn : NoDupKeys st.streams)
+    (hit : Query.StreamItem → Bool) (L : Nat) (hL : 1 ≤ L) (hL' : L < two64) :
+    ∃ pages, walkKeys (Query.streamStore tbl st) (fun _ v => some (hit v)) L ((Query.streamStore tbl st).length + 2) [] = some pages ∧
+      pages.Perm (st.streams.filter hit) := by
+  obtain ⟨h1, h2⟩ := streamStore_keys tbl st ht hn
+  obtain ⟨pages, hw, _, hp⟩ := c20_pages_partition_by_key _ h1 h2 (fun _ v => hit v) L hL hL'
+  refine ⟨pages, hw, hp.trans ?_⟩
+  simp only [List.filter_map, List.map_map]
+  have : ((fun x : Bytes × Query.StreamItem => x.2) ∘
+      (fun x : (Addr × Addr) × Stream => (Query.lp (Query.addrBytes tbl x.1.1) ++ Query.lp (Query.addrBytes tbl x.1.2), x))) = id := rfl
+  rw [this, List.map_id]
+  exact List.Perm.of_eq (by congr 1)
+
+/-- **Streams by receiver** (a prefix scan of the receiver's section): every stream of that receiver exactly
+once, and no stream of any other receiver. -/
+theorem c20_streams_by_receiver_walk (tbl : List (Addr × Bytes)) (st : StreamState) (ht : AddrTableOK tbl st)
+    (hn : NoDupKeys st.streams) (ra : Addr) (L : Nat) (hL : 1 ≤ L) (hL' : L < two64) :
+    let sect := sortKV ((st.streams.filter (fun x => x.1.1 = ra)).map (fun x => (Query.lp (Query.addrBytes tbl x.1.2), x)))
+    ∃ pages, walkKeys sect (fun _ _ => some true) L (sect.length + 2) [] = some pages ∧
+      pages.Perm (st.streams.filter (fun x => x.1.1 = ra)) := by
+  intro sect
+  have h1 : (((st.streams.filter (fun x => x.1.1 = ra)).map (fun x => (Query.lp (Query.addrBytes tbl x.1.2), x))).map (·.1)).Nodup := by
+    rw [List.map_map]
+    have hnd : (st.streams.map (·.1)).Nodup := hn
+    have hsub : ((st.streams.filter (fun x => x.1.1 = ra)).map (·.1)).Nodup := by
+      unfold List.Nodup at hnd ⊢
+      rw [List.pairwise_map] at hnd ⊢
+      exact hnd.sublist List.filter_sublist
+    unfold List.Nodup at hsub ⊢
+    rw [List.pairwise_map] at hsub ⊢
+    refine List.Pairwise.imp_of_mem ?_ hsub
+    intro a b ha hb hab heq
+    have ha' := (List.mem_filter.mp ha).2
+    have hb' := (List.mem_filter.mp hb).2
+    simp only [decide_eq_true_eq] at ha' hb'
+    have hs := (ht.2 a (List.mem_filter.mp ha).1 b (List.mem_filter.mp hb).1).2 (lp_inj _ _ heq)
+    exact hab (Prod.ext (ha'.trans hb'.symm) hs)
+  have h2 : ∀ x ∈ (st.streams.filter (fun x => x.1.1 = ra)).map (fun x => (Query.lp (Query.addrBytes tbl x.1.2), x)), x.1 ≠ [] := by
+    intro x hx
+    obtain ⟨y, _, rfl⟩ := List.mem_map.mp hx
+    simp [Query.lp]
+  obtain ⟨pages, hw, _, hp⟩ := c20_pages_partition_by_key _ h1 h2 (fun _ _ => true) L hL hL'
+  refine ⟨pages, hw, hp.trans ?_⟩
+  have hf : ∀ (l : List (Bytes × Query.StreamItem)), l.filter (fun e => (fun (_ : Bytes) (_ : Query.StreamItem) => true) e.1 e.2) = l :=
+    fun l => by simp
+  have : ((fun x : Bytes × Query.StreamItem => x.2) ∘
+      (fun x : (Addr × Addr) × Stream => (Query.lp (Query.addrBytes tbl x.1.2), x))) = id := rfl
+  rw [hf, List.map_map, this, List.map_id]
+
+/-- the list queries of the model *are* these paging calls -/
+example (tbl : List (Addr × Bytes)) (st : StreamState) (req : Req) :
+    Query.strStreams tbl st req = filtered (Query.streamStore tbl st) req (fun _ _ => some true) := rfl
+example (tbl : List (Addr × Bytes)) (st : StreamState) (sa : Addr) (req : Req) :
+    Query.strBySender tbl st (AddrTok.canon sa) req =
+      filtered (Query.streamStore tbl st) req (fun _ x => some (decide (x.1.2 = sa))) := by
+  simp [Query.strBySender, AddrTok.canon, AddrTok.decode]
+
+/-- non-vacuity: a 32-byte receiver, a 20-byte receiver that is a prefix of it, and two senders — the table
+hypothesis holds and the store has three distinct keys -/
+def exTbl : List (Addr × Bytes) :=
+  [(2001, List.replicate 20 7 ++ List.replicate 12 9), (2003, List.replicate 20 7), (1, List.replicate 20 1), (2, List.replicate 20 2)]
+def exStr : Stream := { denom := "nund", deposit := 10, rate := 1, last := 0, zero := 10, cancellable := true }
+def exSt : StreamState := { fee := 0, streams := [((2001, 1), exStr), ((2003, 1), exStr), ((2003, 2), exStr)] }
+example : AddrTableOK exTbl exSt ∧ NoDupKeys exSt.streams ∧ (Query.streamStore exTbl exSt).length = 3 := by
+  refine ⟨?_, by unfold NoDupKeys AL.keys; decide, by decide⟩
+  unfold AddrTableOK
+  constructor
+  · intro x hx
+    simp only [exSt, List.mem_cons, List.not_mem_nil, or_false] at hx
+    rcases hx with rfl | rfl | rfl <;> decide
+  · intro x hx y hy
+    simp only [exSt, List.mem_cons, List.not_mem_nil, or_false] at hx hy
+    rcases hx with rfl | rfl | rfl <;> rcases hy with rfl | rfl | rfl <;> decide
+
+/-- the two theorems above in every state of every run -/
+theorem c20_stream_lists_reachable (g : GenCfg) (hg : GenBankValid g) (s : State) (h : FineReach g BankSane s) :
+    NoDupKeys s.str.streams := (strInv_reachable g hg s h).nodup
 
 /-- **Consistency with the point query.**  Every stored order is what `EnterpriseUndPurchaseOrder(id)`
 returns for its id (ids are never 0: the genesis starting id is validated to be positive). -/
